@@ -4,7 +4,7 @@ CLUSTERS = {
     # name -> extraction file (coq/theories/Extract), extracted module, entry point
     "vals": {"extract": "ExtractVals.v", "ml": "model_vals", "entry": "main_vals"},
     "url": {"extract": "ExtractUrl.v", "ml": "model_url", "entry": "main_url"},
-    "codec": {"extract": "ExtractCodec.v", "ml": "model_codec", "entry": "main_codec", "ops": ["norm"]},
+    "codec": {"extract": "ExtractCodec.v", "ml": "model_codec", "entry": "main_codec", "ops": ["norm", "gobnorm"]},
     "expand": {"extract": "ExtractExpand.v", "ml": "model_expand", "entry": "main_expand", "ops": ["expand_spec"]},
     "valid": {"extract": "ExtractValid.v", "ml": "model_valid", "entry": "main_valid"},
 }
@@ -202,5 +202,41 @@ PROPS = {
         "level_note": "Partial: equality of typed-root lookups (JSONLookup) with generic lookups is property C15; it is assumed here. F13 (ResolveRef on a typed root at union positions) is an open finding.",
         "technique": "Coq proof about the resolver model + differential run + independent oracle",
         "assumptions": ["the typed root is observed through its JSON encoding (C15)"],
+    },
+    "C15": {
+        "props": "theories/Props/C15.v", "gens": [("tables", "Codec/Gen_Tables.v")], "cluster": "codec", "gen": "codec",
+        "n": {"quick": 600, "thorough": 6000}, "oracle_n": {"quick": 400, "thorough": 4000},
+        "out_of_scope_shapes": {"contact-license-extension": "contact and license objects are not among the kinds the property lists",
+                                "externaldocs-xml-extension": "externalDocs and xml objects are not among the kinds the property lists"},
+        "rule": "correspondence: the codec cluster (the encoding the pointers are evaluated on is the model's norm); oracle: EVERY pointer into the "
+                "encoding of every generated normal-form document (13 kinds; thousands per document; tokens needing ~0/~1, array indices, status "
+                "codes, default responses, extension members, unknown schema keywords) evaluated by jsonpointer on the typed value and on the "
+                "generic decoding; non-trivial = document with at least one pointer; distinct = distinct (kind, document)",
+        "trusted_base": COMMON_TB + ["translator/tables.go: the sources each JSONLookup consults (map index, literal comparison, GetForToken part), struct tables",
+                                     "jsonpointer v0.21.1 and swag's name provider (struct lookup by JSON name)"],
+        "level_text": "Coq theorem over tables regenerated from /repo (Props/C15.v): for the 11 kinds with a hand-written JSONLookup, every member name the "
+                      "encoder can emit (other than $ref and the F18 gap $schema) is served by a source the lookup consults, and no name is served by two "
+                      "sources. The value-level statement (C15_statement) is not proved; the oracle evaluates every pointer of every generated document on "
+                      "the implementation.",
+        "level_note": "Partial: table-level proof + exhaustive pointer enumeration on the implementation; the dispatch of jsonpointer.GetForToken and the name provider are modelled only through the tables.",
+        "technique": "Coq obligation over tables regenerated from source + exhaustive pointer oracle on the implementation",
+        "assumptions": ["pointers are taken from the JSON encoding (the property's quantifier)"],
+    },
+    "C14": {
+        "case_to_input": lambda c: {"kind": c["kind"], "doc": c["j"]} if c.get("op") == "gobnorm" else None,
+        "props": "theories/Props/C14.v", "gens": [("tables", "Codec/Gen_Tables.v")], "cluster": "codec", "gen": "gob",
+        "n": {"quick": 800, "thorough": 8000}, "oracle_n": {"quick": 500, "thorough": 6000},
+        "rule": "correspondence: decode, REAL gob round trip, encode, for Swagger/Operation/Parameter/Schema/Response/Ref on every keyword alone, every "
+                "pair and random normal-form documents with payloads biased to null, [], {}, nested mixtures and zero-valued validations, against "
+                "the model's norm in gob mode (member order compared); oracle: JSON encoding before and after the round trip equal as values; "
+                "non-trivial = at least one member; distinct = distinct (kind, document)",
+        "trusted_base": COMMON_TB + ["Codec/Codec.v gob mode: a model of what encoding/gob transmits for the package's types (a library, not formalised): tied by the differential run only"],
+        "level_text": "Coq (Props/C14.v): the transport rules are part of the executable codec model; unbounded lemmas: a free-form payload without an "
+                      "empty array is unchanged at any depth, a non-zero validation is never dropped; evaluation witnesses for the security "
+                      "requirement states, references and unions; the two lossy shapes (F6) as refutation witnesses. The statement for all "
+                      "documents (C14_statement) is not proved generically; the model agrees with real gob round trips on every generated case.",
+        "level_note": "Partial: encoding/gob is modelled, not verified; the per-document theorem is future work.",
+        "technique": "Coq lemmas about a hand model of the gob transport + differential run against real gob round trips + oracle",
+        "assumptions": ["gob.Register state of the package as at init"],
     },
 }
